@@ -14,7 +14,8 @@ package main
 // the real call graph (interface dispatch by name) and ignores function values stored in
 // variables other than direct hook interfaces. Calls into non-repo packages are leaves.
 //
-// Kinds: panic (explicit), must (call of a function named Must…), quo (Quo/QuoInt/QuoRaw/
+// Kinds: coinsub / newcoin (sdk.Coins|DecCoins.Sub going negative, sdk.NewCoin|NewDecCoin with a
+// non-constant amount that may be negative), panic (explicit), must (call of a function named Must…), quo (Quo/QuoInt/QuoRaw/
 // QuoInt64/QuoTruncate/QuoRoundUp/Mod… on LegacyDec / sdkmath.Int / big.Int, or on an operand of
 // unknown type), intdiv (`/` `%` on Go integers with a non-constant divisor), index (slice / array /
 // string index or slice expression with a non-constant index, except `xs[i]` inside
@@ -336,6 +337,21 @@ func panicSites(ix *xIndex, fn *xFunc) []string {
 			}
 			if strings.HasPrefix(name, "Must") {
 				add("must", t)
+			}
+			// sdk.Coins / sdk.DecCoins: Sub panics when a denomination would go negative, NewCoin /
+			// NewDecCoin(FromDec) panic on a negative amount
+			if sel, ok := t.Fun.(*ast.SelectorExpr); ok {
+				if sel.Sel.Name == "Sub" && len(t.Args) >= 1 && s.kind(sel.X) == "coins" {
+					add("coinsub", t)
+				}
+				if id, ok := sel.X.(*ast.Ident); ok && id.Name == "sdk" && len(t.Args) == 2 {
+					switch sel.Sel.Name {
+					case "NewCoin", "NewDecCoin", "NewDecCoinFromDec", "NewInt64Coin":
+						if !isConst(s, t.Args[1]) {
+							add("newcoin", t)
+						}
+					}
+				}
 			}
 		case *ast.BinaryExpr:
 			if t.Op == token.QUO || t.Op == token.REM {
